@@ -16,8 +16,8 @@ func init() { Registry["C18"] = C18 }
 
 type panicSite struct {
 	Kind, Status, Key, Pos, Why string
-	Fn                         *ssa.Function
-	In                         ssa.Instruction
+	Fn                          *ssa.Function
+	In                          ssa.Instruction
 }
 
 // entry points whose inputs come from the board, the local API or an operation file
